@@ -1,12 +1,739 @@
-//! C08 — (stub: no ops yet)
+//! C08 — the peptide database is canonical and independent of FASTA order and scheduling
+//!
+//!   db8 <mode> <pseed> <nperm> <gen 0|1> <tag:hex>
+//!       <mc> <min_len> <max_len> <cleave:hex> <0 | 1 restrict-byte> <c_terminal> <semi>
+//!       <f32 min_mass> <f32 max_mass> <max_var>
+//!       <nvar> {<key:hex> <nmass> <f32>*} <nstatic> {<key:hex> <f32>}
+//!       <kinds mask (bit i = Kind i of a,b,c,x,y,z)> <min_ion_index> <bucket> <frag 0|1>
+//!       <nrec> {<accession:hex> <sequence:hex>}
+//!     -> panic
+//!      | ok <npep> {<decoy> <seq:hex> <n> <f32 mod>*n <0|1 f32 nterm> <0|1 f32 cterm> <f32 mass>
+//!                   <missed_cleavages> <semi_enzymatic> <position 0..3> <nprot> <acc:hex>*}
+//!           F <nfrag> [frag=1: {<peptide index> <f32 m/z>}*nfrag sorted]
+//!           perm <orders tried> <orders whose content differs>
+//!           pool <pools tried> <pools whose content differs>
+//!           hash <rebuilds of Parameters tried> <rebuilds whose content differs>
+//!
+//!   The records are rendered as FASTA text (`>acc description\nSEQ\n`), read by the real `Fasta::parse`, and
+//!   the database is built by the real `Builder::make_parameters` + `Parameters::build`.
+//!   "content" = every public field of every peptide in database order, the fragment multiset
+//!   (peptide index, m/z bits) sorted, and `min_value`.
+//!   * perm: the same build on permuted record orders — ALL permutations when there are <= 5 records, otherwise
+//!     reversal, a rotation and `nperm` shuffles drawn from `pseed`;
+//!   * pool: the same build inside rayon pools of 1,2,3,4,8,16,32 threads (`ThreadPool::install`);
+//!   * hash: the same build from a freshly made `Parameters` (new `HashMap` seeds for the modification
+//!     tables, whose iteration order feeds the candidate order of `Peptide::apply`): run-to-run determinism
+//!     (before fix 8dee51f `position` / `semi_enzymatic` of merged duplicates varied here).
+//!   All perm/pool builds use a clone of one `Parameters` value, so that the only thing varied is the thing named.
+//!   mode 0: main stream. mode 1: additionally the clause "a decoy-tagged FASTA protein that contains the
+//!   peptide is listed too" is switched on in the driver (FASTA-supplied decoys; separate stream).
 use super::Info;
-use crate::proto::{Case, Rng, Tier, Toks};
+use crate::proto::{Case, Out, Rng, Tier, Toks};
+use sage_core::database::{Builder, EnzymeBuilder, IndexedDatabase, Parameters};
+use sage_core::enzyme::Position;
+use sage_core::fasta::Fasta;
+use sage_core::ion_series::Kind;
+use std::collections::HashMap;
+use std::sync::{Arc, Mutex, OnceLock};
 
-pub const OPS: &[&str] = &[];
-pub const INFO: Info = Info { rule: "", serial: false };
+pub const OPS: &[&str] = &["db8"];
+pub const INFO: Info = Info {
+    rule: "db8: FASTA records assembled from a pool of tryptic blocks over a small residue alphabet (I/L isobars, \
+           M/C/Q/S for modifications), so that peptides are shared between proteins and occur at protein N-terminus, \
+           C-terminus, internally and as whole proteins; whole proteins duplicated under other accessions; accessions \
+           whose byte order differs from their numeric order; 2-6 records (every permutation is rebuilt), 7-60 records, \
+           and large databases up to several thousand entries before merging (frag=0) so that rayon's insertion-sort \
+           (<=20), sequential (<=2000) and parallel quicksort regimes are reached; enzyme: KR/P tryptic, N-terminal \
+           cleavage, no restriction, 0-2 missed cleavages, semi-enzymatic, non-specific; variable modifications on \
+           ^ $ [ ] (with and without residue) and residues, 1-3 per peptide, several masses per key, overlapping \
+           candidates (^ and [ with the same mass); non-overlapping static modifications; generated decoys and \
+           FASTA-supplied decoys (tagged accessions, peptides shared between tagged and untagged proteins); mass \
+           window sometimes cutting the form list; directed cases: the two fixed C08 defects, palindromic / short \
+           peptides whose reversal is a target, a FASTA without any peptide (panic class, trivial); every case is also \
+           rebuilt 4 times from a fresh Parameters value (new HashMap seeds). \
+           non-trivial = at least two database entries and at least one entry with >= 2 proteins or >= 2 merged \
+           sources; distinct by request line",
+    serial: true,
+};
 
-pub fn gen(_rng: &mut Rng, _tier: Tier, _emit: &mut dyn FnMut(Case)) {}
+// ------------------------------------------------------------------------------------------ request
 
-pub fn exec(_op: &str, _t: &mut Toks) -> Option<String> {
-    None
+#[derive(Clone, Debug)]
+struct Req {
+    mode: usize,
+    pseed: u64,
+    nperm: usize,
+    gen: bool,
+    tag: String,
+    mc: u8,
+    min_len: usize,
+    max_len: usize,
+    cleave: String,
+    restrict: Option<u8>,
+    c_terminal: bool,
+    semi: bool,
+    lo: f32,
+    hi: f32,
+    max_var: usize,
+    vars: Vec<(String, Vec<f32>)>,
+    statics: Vec<(String, f32)>,
+    kinds: usize,
+    min_ion: usize,
+    bucket: usize,
+    frag: bool,
+    recs: Vec<(String, String)>,
+}
+
+fn write_req(r: &Req) -> String {
+    let mut o = Out::new();
+    o.raw("db8").n(r.mode).n(r.pseed).n(r.nperm).b(r.gen).s(&r.tag);
+    o.n(r.mc).n(r.min_len).n(r.max_len).s(&r.cleave);
+    match r.restrict {
+        None => o.n(0),
+        Some(c) => o.n(1).n(c),
+    };
+    o.b(r.c_terminal).b(r.semi).f32(r.lo).f32(r.hi).n(r.max_var);
+    o.n(r.vars.len());
+    for (k, ms) in &r.vars {
+        o.s(k).n(ms.len());
+        for m in ms {
+            o.f32(*m);
+        }
+    }
+    o.n(r.statics.len());
+    for (k, m) in &r.statics {
+        o.s(k).f32(*m);
+    }
+    o.n(r.kinds).n(r.min_ion).n(r.bucket).b(r.frag);
+    o.n(r.recs.len());
+    for (a, s) in &r.recs {
+        o.s(a).s(s);
+    }
+    o.finish()
+}
+
+fn read_req(t: &mut Toks) -> Option<Req> {
+    let mode = t.usize()?;
+    let pseed = t.tok()?.parse::<u64>().ok()?;
+    let nperm = t.usize()?;
+    let gen = t.bool()?;
+    let tag = t.string()?;
+    let mc = t.usize()?;
+    if mc > 254 {
+        return None;
+    }
+    let min_len = t.usize()?;
+    let max_len = t.usize()?;
+    let cleave = t.string()?;
+    let restrict = t.opt(|t| t.usize())?;
+    let restrict = match restrict {
+        None => None,
+        Some(c) if c < 128 => Some(c as u8),
+        _ => return None,
+    };
+    let c_terminal = t.bool()?;
+    let semi = t.bool()?;
+    let lo = t.f32()?;
+    let hi = t.f32()?;
+    let max_var = t.usize()?;
+    let vars = t.list(|t| {
+        let k = t.string()?;
+        let ms = t.list(|t| t.f32())?;
+        Some((k, ms))
+    })?;
+    let statics = t.list(|t| {
+        let k = t.string()?;
+        let m = t.f32()?;
+        Some((k, m))
+    })?;
+    let kinds = t.usize()?;
+    let min_ion = t.usize()?;
+    let bucket = t.usize()?;
+    let frag = t.bool()?;
+    let recs = t.list(|t| {
+        let a = t.string()?;
+        let s = t.string()?;
+        Some((a, s))
+    })?;
+    if !t.done() {
+        return None;
+    }
+    Some(Req {
+        mode, pseed, nperm, gen, tag, mc: mc as u8, min_len, max_len, cleave, restrict, c_terminal, semi, lo, hi,
+        max_var, vars, statics, kinds, min_ion, bucket, frag, recs,
+    })
+}
+
+// ------------------------------------------------------------------------------------------ sage glue
+
+fn kinds_of(mask: usize) -> Vec<Kind> {
+    [Kind::A, Kind::B, Kind::C, Kind::X, Kind::Y, Kind::Z]
+        .into_iter()
+        .enumerate()
+        .filter(|(i, _)| mask >> i & 1 == 1)
+        .map(|(_, k)| k)
+        .collect()
+}
+
+fn parameters(r: &Req) -> Parameters {
+    Builder {
+        bucket_size: Some(r.bucket.max(1)),
+        enzyme: Some(EnzymeBuilder {
+            missed_cleavages: Some(r.mc),
+            min_len: Some(r.min_len),
+            max_len: Some(r.max_len),
+            cleave_at: Some(r.cleave.clone()),
+            restrict: r.restrict.map(|c| c as char),
+            c_terminal: Some(r.c_terminal),
+            semi_enzymatic: Some(r.semi),
+        }),
+        peptide_min_mass: Some(r.lo),
+        peptide_max_mass: Some(r.hi),
+        ion_kinds: Some(kinds_of(r.kinds)),
+        min_ion_index: Some(r.min_ion),
+        static_mods: Some(r.statics.iter().cloned().collect::<HashMap<_, _>>()),
+        variable_mods: Some(r.vars.iter().cloned().collect::<HashMap<_, _>>()),
+        max_variable_mods: Some(r.max_var),
+        decoy_tag: Some(r.tag.clone()),
+        generate_decoys: Some(r.gen),
+        fasta: Some("none".into()),
+        ..Default::default()
+    }
+    .make_parameters()
+}
+
+fn fasta_text(recs: &[(String, String)]) -> String {
+    let mut s = String::new();
+    for (a, q) in recs {
+        s.push('>');
+        s.push_str(a);
+        s.push_str(" d\n");
+        s.push_str(q);
+        s.push('\n');
+    }
+    s
+}
+
+fn build(p: &Parameters, recs: &[(String, String)]) -> IndexedDatabase {
+    let fasta = Fasta::parse(fasta_text(recs), &p.decoy_tag, p.generate_decoys);
+    p.clone().build(fasta)
+}
+
+fn pos_code(p: Position) -> usize {
+    match p {
+        Position::Nterm => 0,
+        Position::Cterm => 1,
+        Position::Full => 2,
+        Position::Internal => 3,
+    }
+}
+
+struct Content {
+    peps: String,
+    npep: usize,
+    frags: Vec<(u32, u32)>,
+    minv: Vec<u32>,
+}
+
+impl Content {
+    fn same(&self, o: &Content) -> bool {
+        self.peps == o.peps && self.frags == o.frags && self.minv == o.minv
+    }
+}
+
+fn content(db: &IndexedDatabase) -> Content {
+    let mut o = Out::new();
+    for p in &db.peptides {
+        o.b(p.decoy).bytes(&p.sequence).n(p.modifications.len());
+        for m in &p.modifications {
+            o.f32(*m);
+        }
+        for t in [p.nterm, p.cterm] {
+            match t {
+                None => o.n(0),
+                Some(x) => o.n(1).f32(x),
+            };
+        }
+        o.f32(p.monoisotopic).n(p.missed_cleavages).b(p.semi_enzymatic).n(pos_code(p.position));
+        o.n(p.proteins.len());
+        for a in &p.proteins {
+            o.s(a);
+        }
+    }
+    let mut frags: Vec<(u32, u32)> = db.fragments.iter().map(|f| (f.peptide_index.0, f.fragment_mz.to_bits())).collect();
+    frags.sort();
+    Content { peps: o.finish(), npep: db.peptides.len(), frags, minv: db.min_value.iter().map(|x| x.to_bits()).collect() }
+}
+
+fn pool(threads: usize) -> Arc<rayon::ThreadPool> {
+    static POOLS: OnceLock<Mutex<HashMap<usize, Arc<rayon::ThreadPool>>>> = OnceLock::new();
+    let m = POOLS.get_or_init(|| Mutex::new(HashMap::new()));
+    let mut g = m.lock().unwrap_or_else(|e| e.into_inner());
+    g.entry(threads)
+        .or_insert_with(|| Arc::new(rayon::ThreadPoolBuilder::new().num_threads(threads.max(1)).build().expect("pool")))
+        .clone()
+}
+
+const POOLS: &[usize] = &[1, 2, 3, 4, 8, 16, 32];
+
+fn all_perms(n: usize) -> Vec<Vec<usize>> {
+    fn rec(k: usize, a: &mut Vec<usize>, out: &mut Vec<Vec<usize>>) {
+        if k <= 1 {
+            out.push(a.clone());
+            return;
+        }
+        for i in 0..k {
+            rec(k - 1, a, out);
+            if k % 2 == 0 {
+                a.swap(i, k - 1);
+            } else {
+                a.swap(0, k - 1);
+            }
+        }
+    }
+    let mut a: Vec<usize> = (0..n).collect();
+    let mut out = Vec::new();
+    rec(n, &mut a, &mut out);
+    out
+}
+
+fn orders(n: usize, nperm: usize, pseed: u64) -> Vec<Vec<usize>> {
+    if n <= 5 {
+        return all_perms(n).into_iter().filter(|p| p.iter().enumerate().any(|(i, &x)| i != x)).collect();
+    }
+    let mut out: Vec<Vec<usize>> = Vec::new();
+    out.push((0..n).rev().collect());
+    out.push((0..n).map(|i| (i + n / 2) % n).collect());
+    let mut rng = Rng::new(pseed);
+    for _ in 0..nperm {
+        let mut a: Vec<usize> = (0..n).collect();
+        rng.shuffle(&mut a);
+        out.push(a);
+    }
+    out
+}
+
+pub fn exec(op: &str, t: &mut Toks) -> Option<String> {
+    if op != "db8" {
+        return None;
+    }
+    let r = read_req(t)?;
+    let p = parameters(&r);
+    // the reference build runs in a 4-thread pool; a panic (no digest at all) propagates to the caller
+    let base = pool(4).install(|| content(&build(&p, &r.recs)));
+    let mut o = Out::new();
+    o.raw("ok").n(base.npep).raw(&base.peps);
+    if base.npep == 0 {
+        // `raw` of an empty string would add a stray separator; nothing to do
+    }
+    o.raw("F").n(base.frags.len());
+    if r.frag {
+        for (i, m) in &base.frags {
+            o.n(*i).n(*m);
+        }
+    }
+    // metamorphic streams, evaluated on the implementation itself
+    let ords = orders(r.recs.len(), r.nperm, r.pseed);
+    let mut pdiff = 0;
+    for ord in &ords {
+        let recs: Vec<(String, String)> = ord.iter().map(|&i| r.recs[i].clone()).collect();
+        let c = pool(4).install(|| content(&build(&p, &recs)));
+        if !c.same(&base) {
+            pdiff += 1;
+        }
+    }
+    o.raw("perm").n(ords.len()).n(pdiff);
+    let mut tdiff = 0;
+    for &k in POOLS {
+        let c = pool(k).install(|| content(&build(&p, &r.recs)));
+        if !c.same(&base) {
+            tdiff += 1;
+        }
+    }
+    o.raw("pool").n(POOLS.len()).n(tdiff);
+    let nh = 4;
+    let mut hdiff = 0;
+    for _ in 0..nh {
+        let p2 = parameters(&r);
+        let c = pool(4).install(|| content(&build(&p2, &r.recs)));
+        if !c.same(&base) {
+            hdiff += 1;
+            if std::env::var("VERIF_C08_DEBUG").is_ok() {
+                let a: Vec<&str> = base.peps.split(' ').collect();
+                let b: Vec<&str> = c.peps.split(' ').collect();
+                let i = a.iter().zip(b.iter()).position(|(x, y)| x != y).unwrap_or(0);
+                eprintln!("hash diff: npep {} {} frags_same {} at tok {}: {:?} vs {:?}", base.npep, c.npep, base.frags == c.frags, i,
+                    &a[i.saturating_sub(12)..(i + 6).min(a.len())], &b[i.saturating_sub(12)..(i + 6).min(b.len())]);
+            }
+        }
+    }
+    o.raw("hash").n(nh).n(hdiff);
+    Some(o.finish())
+}
+
+// ------------------------------------------------------------------------------------------ generator
+
+const MASSES: &[f32] = &[15.9949, 42.010565, 79.96633, -17.026548, 0.984016, 14.01565, 28.0313, 114.04293];
+const ALPHA: &[u8] = b"AGILSMCQEPDK";
+const ACCS: &[&str] = &["P1", "P10", "P2", "sp|Q9|X", "a1", "B7", "P02", "Z", "tr|A0|Y", "P3", "P11", "b"];
+
+fn block(rng: &mut Rng, lo: usize, hi: usize) -> String {
+    let n = rng.range(lo as i64, hi as i64) as usize;
+    let mut s: Vec<u8> = (0..n.saturating_sub(1)).map(|_| *rng.pick(ALPHA)).collect();
+    // inner K/R are allowed (missed-cleavage material, KP restriction); end on a cleavage residue
+    if rng.chance(1, 6) && !s.is_empty() {
+        let i = rng.below(s.len());
+        s[i] = if rng.chance(1, 2) { b'K' } else { b'R' };
+        if rng.chance(1, 2) && i + 1 < s.len() {
+            s[i + 1] = b'P';
+        }
+    }
+    s.push(if rng.chance(2, 3) { b'K' } else { b'R' });
+    String::from_utf8(s).unwrap()
+}
+
+fn acc(i: usize) -> String {
+    if i < ACCS.len() {
+        ACCS[i].to_string()
+    } else {
+        format!("{}{}", ["P", "Q", "sp|", "x"][i % 4], i)
+    }
+}
+
+/// proteins as concatenations of blocks drawn from a shared pool
+fn proteins(rng: &mut Rng, nrec: usize, npool: usize, maxblocks: usize, blo: usize, bhi: usize) -> Vec<(String, String)> {
+    let pool: Vec<String> = (0..npool).map(|_| block(rng, blo, bhi)).collect();
+    let mut recs: Vec<(String, String)> = Vec::new();
+    for i in 0..nrec {
+        let seq = if i > 0 && rng.chance(1, 8) {
+            // a whole protein duplicated under another accession
+            recs[rng.below(i)].1.clone()
+        } else if rng.chance(1, 10) {
+            // a protein that is exactly one block (Position::Full)
+            rng.pick(&pool[..]).clone()
+        } else {
+            let nb = rng.range(1, maxblocks as i64) as usize;
+            let mut s = String::new();
+            for _ in 0..nb {
+                s.push_str(rng.pick(&pool[..]).as_str());
+            }
+            if rng.chance(1, 4) {
+                // a C-terminal tail that does not end on a cleavage residue
+                let tail: String = (0..rng.range(2, 6)).map(|_| *rng.pick(b"AGILSMCQ") as char).collect();
+                s.push_str(&tail);
+            }
+            s
+        };
+        recs.push((acc(i), seq));
+    }
+    recs
+}
+
+fn var_mods(rng: &mut Rng, recs: &[(String, String)]) -> Vec<(String, Vec<f32>)> {
+    let mut keys: Vec<String> = vec!["^".into(), "$".into(), "[".into(), "]".into(), "M".into(), "S".into(), "C".into(), "Q".into()];
+    // terminal keys with a residue that actually occurs at a peptide terminus
+    if let Some((_, s)) = recs.first() {
+        let b = s.as_bytes();
+        if !b.is_empty() {
+            keys.push(format!("^{}", b[0] as char));
+            keys.push(format!("[{}", b[0] as char));
+            keys.push(format!("]{}", b[b.len() - 1] as char));
+        }
+    }
+    keys.push("$K".into());
+    let n = rng.below(4);
+    let mut out: Vec<(String, Vec<f32>)> = Vec::new();
+    for _ in 0..n {
+        let k = rng.pick(&keys).clone();
+        if out.iter().any(|(k2, _)| *k2 == k) {
+            continue;
+        }
+        let nm = if rng.chance(1, 4) { 2 } else { 1 };
+        let mut ms: Vec<f32> = Vec::new();
+        for _ in 0..nm {
+            let m = *rng.pick(MASSES);
+            if !ms.contains(&m) {
+                ms.push(m);
+            }
+        }
+        out.push((k, ms));
+    }
+    // overlapping candidates: ^ and [ with the same mass put the same form on the list twice
+    if rng.chance(1, 6) {
+        out.retain(|(k, _)| k != "^" && k != "[");
+        out.push(("^".into(), vec![42.010565]));
+        out.push(("[".into(), vec![42.010565]));
+    }
+    out
+}
+
+/// static modifications that can never address the same site twice
+fn static_mods(rng: &mut Rng, vars: &[(String, Vec<f32>)]) -> Vec<(String, f32)> {
+    let mut out: Vec<(String, f32)> = Vec::new();
+    if rng.chance(1, 2) {
+        out.push(("C".into(), 57.021465));
+    }
+    if rng.chance(1, 5) {
+        out.push(("K".into(), 229.16293));
+    }
+    if rng.chance(1, 6) {
+        out.push((if rng.chance(1, 2) { "^" } else { "[" }.into(), 229.16293));
+    }
+    if rng.chance(1, 8) {
+        out.push((if rng.chance(1, 2) { "$" } else { "]" }.into(), -0.984016));
+    }
+    let _ = vars;
+    out
+}
+
+fn base_req(rng: &mut Rng, recs: Vec<(String, String)>) -> Req {
+    let vars = var_mods(rng, &recs);
+    let statics = static_mods(rng, &vars);
+    let semi = rng.chance(1, 5);
+    let (cleave, restrict, c_terminal) = match rng.below(10) {
+        0 => ("KR".to_string(), None, true),
+        1 => ("KR".to_string(), Some(b'P'), false),
+        2 => ("K".to_string(), Some(b'P'), true),
+        3 => ("".to_string(), None, true),
+        _ => ("KR".to_string(), Some(b'P'), true),
+    };
+    let nonspecific = cleave.is_empty();
+    let min_len = if nonspecific { rng.range(5, 6) as usize } else { rng.range(3, 6) as usize };
+    let max_len = if nonspecific { min_len + rng.below(2) } else { rng.range(12, 30) as usize };
+    let (lo, hi) = match rng.below(5) {
+        0 => (600.0, 1200.0),
+        1 => (0.0, 900.0),
+        _ => (200.0, 6000.0),
+    };
+    Req {
+        mode: 0,
+        pseed: rng.next() % 1_000_000,
+        nperm: 4,
+        gen: rng.chance(2, 3),
+        tag: "rev_".into(),
+        mc: rng.below(3) as u8,
+        min_len,
+        max_len,
+        cleave,
+        restrict,
+        c_terminal,
+        semi: semi && !nonspecific,
+        lo,
+        hi,
+        max_var: rng.range(1, 3) as usize,
+        vars,
+        statics,
+        kinds: *rng.pick(&[0b010010usize, 0b010010, 0b111111, 0b000010, 0b100100]),
+        min_ion: rng.below(3),
+        bucket: *rng.pick(&[1usize, 2, 8, 64, 8192]),
+        frag: true,
+        recs,
+    }
+}
+
+/// FASTA-supplied decoys: tag some accessions (reversed or identical sequences, so that peptides are shared
+/// between tagged and untagged proteins)
+fn tag_some(rng: &mut Rng, r: &mut Req, share: bool) {
+    r.gen = false;
+    let n = r.recs.len();
+    let mut extra: Vec<(String, String)> = Vec::new();
+    for i in 0..n {
+        if rng.chance(1, 2) {
+            let (a, s) = r.recs[i].clone();
+            let seq = if share || rng.chance(1, 3) { s } else { s.chars().rev().collect() };
+            extra.push((format!("rev_{}", a), seq));
+        }
+    }
+    if extra.is_empty() {
+        let (a, s) = r.recs[0].clone();
+        extra.push((format!("rev_{}", a), s));
+    }
+    r.recs.extend(extra);
+    rng.shuffle(&mut r.recs);
+}
+
+fn emit_req(emit: &mut dyn FnMut(Case), r: &Req, tags: &[&'static str]) {
+    let mut c = Case::new(write_req(r));
+    for t in tags {
+        c = c.tag(t);
+    }
+    c = c.tag_if(r.gen, "generated_decoys").tag_if(!r.gen, "fasta_decoys_or_none");
+    c = c.tag_if(r.semi, "semi_enzymatic").tag_if(r.cleave.is_empty(), "non_specific");
+    c = c.tag_if(!r.vars.is_empty(), "variable_mods").tag_if(!r.statics.is_empty(), "static_mods");
+    c = c.tag_if(r.recs.len() <= 5, "all_permutations").tag_if(r.recs.len() > 5, "sampled_permutations");
+    c = c.tag_if(r.vars.iter().any(|(k, _)| k.starts_with('[') || k.starts_with(']')), "protein_terminal_mods");
+    let shared = {
+        // some 5-mer occurs in two different records
+        let mut seen: HashMap<&str, usize> = HashMap::new();
+        let mut hit = false;
+        for (i, (_, s)) in r.recs.iter().enumerate() {
+            for j in 0..s.len().saturating_sub(4) {
+                match seen.get(&s[j..j + 5]) {
+                    Some(&k) if k != i => hit = true,
+                    _ => {
+                        seen.insert(&s[j..j + 5], i);
+                    }
+                }
+            }
+        }
+        hit
+    };
+    c = c.tag_if(shared, "shared_peptides");
+    emit(c.nontrivial(shared && r.recs.len() >= 2));
+}
+
+fn s(x: &str) -> String {
+    x.to_string()
+}
+
+fn directed(emit: &mut dyn FnMut(Case)) {
+    let plain = |recs: Vec<(&str, &str)>| Req {
+        mode: 0,
+        pseed: 1,
+        nperm: 4,
+        gen: false,
+        tag: s("rev_"),
+        mc: 0,
+        min_len: 5,
+        max_len: 50,
+        cleave: s("KR"),
+        restrict: Some(b'P'),
+        c_terminal: true,
+        semi: false,
+        lo: 100.0,
+        hi: 6000.0,
+        max_var: 2,
+        vars: vec![],
+        statics: vec![],
+        kinds: 0b010010,
+        min_ion: 0,
+        bucket: 4,
+        frag: true,
+        recs: recs.into_iter().map(|(a, q)| (s(a), s(q))).collect(),
+    };
+    // fixed defect 7: semi_enzymatic of CCCCC depended on the record order
+    let mut r = plain(vec![("A", "GGGGKCCCCC"), ("B", "GGGGGCCCCC")]);
+    r.semi = true;
+    emit_req(emit, &r, &["directed", "fixed_semi_flag_order"]);
+    // fixed defect 8: overlapping candidates listed the protein twice
+    let mut r = plain(vec![("P1", "AGGGGK"), ("P2", "AGGGGKAGGGGK")]);
+    r.vars = vec![(s("^A"), vec![42.0]), (s("A"), vec![42.0])];
+    emit_req(emit, &r, &["directed", "fixed_protein_listed_twice"]);
+    // the same peptide at N-terminus, internally, at the C-terminus and as a whole protein, with ^ $ [ ] mods:
+    // key-equal duplicates on which the comparator's cterm/nterm clause answers Less in both directions
+    let mut r = plain(vec![("P1", "SEPTIDEKAAAAAK"), ("P2", "AAAAAKSEPTIDEKGGGGGK"), ("P3", "GGGGGKSEPTIDEK"), ("P4", "SEPTIDEK")]);
+    r.vars = vec![(s("^"), vec![42.010565]), (s("$"), vec![-0.984016]), (s("["), vec![42.010565]), (s("]"), vec![14.01565])];
+    r.gen = true;
+    emit_req(emit, &r, &["directed", "four_positions_terminal_mods"]);
+    // palindromes and short peptides: the reversed decoy is itself a target
+    let mut r = plain(vec![("P1", "AKAGGK"), ("P2", "ALLAKALLAK"), ("P3", "GAGAK")]);
+    r.gen = true;
+    r.min_len = 3;
+    emit_req(emit, &r, &["directed", "reversal_is_target"]);
+    // I/L isobars: equal mass, decided by the sequence clause
+    let mut r = plain(vec![("P1", "SEPTIDEKSEPTLDEK"), ("P2", "SEPTLDEKSEPTIDEK")]);
+    r.gen = true;
+    emit_req(emit, &r, &["directed", "isobaric_sequences"]);
+    // duplicated accession (the list names it once)
+    let r = plain(vec![("P1", "AAAAAKCCCCCK"), ("P1", "CCCCCKGGGGGK")]);
+    emit_req(emit, &r, &["directed", "duplicate_accession"]);
+    // FASTA without any peptide: Parameters::build panics (outside the statement; trivial)
+    let r = plain(vec![("P1", "AAK")]);
+    let c = Case::new(write_req(&r)).tag("directed").tag("no_peptide_panic").nontrivial(false);
+    emit(c);
+}
+
+fn directed_decoy_listing(emit: &mut dyn FnMut(Case)) {
+    let r = Req {
+        mode: 1,
+        pseed: 1,
+        nperm: 2,
+        gen: false,
+        tag: s("rev_"),
+        mc: 0,
+        min_len: 5,
+        max_len: 50,
+        cleave: s("KR"),
+        restrict: Some(b'P'),
+        c_terminal: true,
+        semi: false,
+        lo: 100.0,
+        hi: 6000.0,
+        max_var: 1,
+        vars: vec![],
+        statics: vec![],
+        kinds: 0b010010,
+        min_ion: 0,
+        bucket: 4,
+        frag: true,
+        recs: vec![(s("T1"), s("AAAAAKCCCCCK")), (s("rev_D1"), s("CCCCCKGGGGGK"))],
+    };
+    emit_req(emit, &r, &["decoy_listing_stream", "directed"]);
+}
+
+pub fn gen(rng: &mut Rng, tier: Tier, emit: &mut dyn FnMut(Case)) {
+    let thorough = tier == Tier::Thorough;
+    directed(emit);
+    // small: every permutation of the records is rebuilt
+    let n_small = if thorough { 600 } else { 60 };
+    for _ in 0..n_small {
+        let nrec = rng.range(2, 5) as usize;
+        let np = rng.range(2, 5) as usize;
+        let recs = proteins(rng, nrec, np, 4, 5, 9);
+        let mut r = base_req(rng, recs);
+        if rng.chance(1, 4) {
+            tag_some(rng, &mut r, false);
+            r.recs.truncate(5);
+            emit_req(emit, &r, &["small", "fasta_decoys"]);
+        } else {
+            emit_req(emit, &r, &["small"]);
+        }
+    }
+    // medium
+    let n_med = if thorough { 120 } else { 12 };
+    for _ in 0..n_med {
+        let nrec = rng.range(7, 60) as usize;
+        let np = rng.range(5, 30) as usize;
+        let recs = proteins(rng, nrec, np, 6, 5, 10);
+        let mut r = base_req(rng, recs);
+        r.nperm = if thorough { 12 } else { 4 };
+        if rng.chance(1, 4) {
+            tag_some(rng, &mut r, false);
+            emit_req(emit, &r, &["medium", "fasta_decoys"]);
+        } else {
+            emit_req(emit, &r, &["medium"]);
+        }
+    }
+    // large: reach the sequential (<= 2000) and parallel (> 2000) quicksort regimes of par_sort_unstable_by
+    let larges: &[usize] = if thorough { &[150, 300, 300, 600, 900, 1500] } else { &[150, 400] };
+    for &nrec in larges {
+        let recs = proteins(rng, nrec, nrec / 2, 6, 6, 10);
+        let mut r = base_req(rng, recs);
+        r.cleave = s("KR");
+        r.restrict = Some(b'P');
+        r.c_terminal = true;
+        r.semi = false;
+        r.min_len = 5;
+        r.max_len = 30;
+        r.mc = 1;
+        r.gen = true;
+        r.lo = 200.0;
+        r.hi = 6000.0;
+        r.frag = false;
+        r.max_var = 1;
+        r.vars = vec![(s("^"), vec![42.010565]), (s("$"), vec![-0.984016]), (s("["), vec![42.010565])];
+        r.nperm = if thorough { 6 } else { 3 };
+        emit_req(emit, &r, &["large"]);
+    }
+    // separate stream: FASTA-supplied decoys sharing peptides with targets, strict protein-listing clause
+    directed_decoy_listing(emit);
+    let n_dl = if thorough { 40 } else { 6 };
+    for _ in 0..n_dl {
+        let nrec = rng.range(1, 3) as usize;
+        let recs = proteins(rng, nrec, 3, 3, 5, 8);
+        let mut r = base_req(rng, recs);
+        r.mode = 1;
+        tag_some(rng, &mut r, true);
+        emit_req(emit, &r, &["decoy_listing_stream"]);
+    }
 }
